@@ -19,6 +19,7 @@ import SccacheModel.Driver.Atomic
 import SccacheModel.Driver.Tokens
 import SccacheModel.Driver.Config
 import SccacheModel.Driver.RustArgs
+import SccacheModel.Driver.RustKey
 
 /-- `modeld <model>`: line-protocol driver, one sub-command per executable model (DESIGN.md C.1) -/
 def main (args : List String) : IO UInt32 := do
@@ -44,4 +45,5 @@ def main (args : List String) : IO UInt32 := do
   | ["tokens"] => DrvTokens.main *> pure 0
   | ["config"] => DrvConfig.main *> pure 0
   | ["rustargs"] => DrvRustArgs.main *> pure 0
+  | ["rustkey"] => DrvRustKey.main *> pure 0
   | _ => do IO.eprintln "usage: modeld <model>"; pure 2
